@@ -52,6 +52,18 @@ func Fail(kind string, at int) {
 	plans = append(plans, &plan{kind: kind, at: at})
 }
 
+// ClearPlans removes all fault plans (counters keep running).
+func ClearPlans() {
+	mu.Lock()
+	defer mu.Unlock()
+	plans = nil
+	counts = map[string]int{}
+	total = 0
+}
+
+// Local maps a vfault:// path onto the local file system.
+func Local(path string) string { return local(path) }
+
 // Counts returns the number of operations seen per kind, and overall under "".
 func Counts() map[string]int {
 	mu.Lock()
